@@ -187,6 +187,33 @@ pub fn sites(_tier: Tier) -> Vec<Site> {
                 }
             }));
     }
+    {
+        // the SMX track name is a 32-byte fixed field at file offset 16
+        let strs: Vec<(String, String)> = textgen::strings(32);
+        let strs = Arc::new(strs);
+        sites.push(Site::new("smx-track", strs.len() as u64,
+            "insim_smx::Smx track name (32 bytes at file offset 16) x S(32)",
+            move |i, acc| {
+                use insim::core::binrw::BinWrite;
+                let (fam, s) = &strs[i as usize];
+                acc.eval();
+                let smx = insim::smx::Smx { track: s.clone(), ..Default::default() };
+                let mut c = std::io::Cursor::new(Vec::new());
+                let replay = json!({"site": "smx-track", "index": i, "string": fam});
+                match guard(|| smx.write(&mut c)) {
+                    Ok(Ok(())) => {
+                        let b = c.into_inner();
+                        let mut want = to_lossy_bytes(s).to_vec();
+                        want.truncate(32);
+                        want.resize(32, 0);
+                        if b.len() != 68 || b[16..48] != want[..] {
+                            acc.violate(i, "C11|SMX|Track|field-bytes".into(), format!("track = {fam}: file is {} bytes, field {}", b.len(), hex(&b[16.min(b.len())..48.min(b.len())])), replay);
+                        } else { acc.class("exact"); acc.nontrivial(); }
+                    },
+                    other => acc.violate(i, "C11|SMX|Track|write-failed".into(), format!("track = {fam}: {other:?}"), replay),
+                }
+            }));
+    }
     sites
 }
 
@@ -196,7 +223,7 @@ pub fn run(tier: Tier, replay: Option<String>) -> i32 {
         vec![
             "expected content = the implementation's own code-page encoding of the string (C10 judges the encoding), truncated to the width and NUL-padded".into(),
             "MST/MSX/MSL/MTC must end in a NUL byte for every string; other variable fields may or may not carry an extra terminator block".into(),
-            "SMX track name (insim_smx) is covered by C17's round trip".into(),
+            "the SMX track name (insim_smx) has its own site".into(),
         ],
         |_, _| {})
 }
